@@ -570,6 +570,20 @@ func ruleC01List(p *Prog, r *Result) {
 				return false, "continues although nothing was deleted"
 			}
 		}
+		// or the kept entries are compared by length with the list they were taken from
+		for _, g := range pa.Guards {
+			if g.Kind != "eq" || g.A == nil || g.B == nil || g.A.Op != "len" || g.B.Op != "len" {
+				continue
+			}
+			for _, pair := range [][2]*T{{g.A.Args[0], g.B.Args[0]}, {g.B.Args[0], g.A.Args[0]}} {
+				if pair[0].Op == "carried" && pr.keepsExactlyNonMatching(pair[0], pair[1]) {
+					if g.Neg {
+						return true, ""
+					}
+					return false, "continues although nothing was deleted"
+				}
+			}
+		}
 		return false, "no guard on a 'something was deleted' flag before continuing"
 	})
 	// --- $match entries
@@ -730,6 +744,58 @@ func (pr *psRule) flagSetOnlyOnMatch(flag *T) bool {
 		}
 	}
 	return true
+}
+
+// keepsExactlyNonMatching: the carried list kept starts empty and, in a loop ranging over from, receives exactly the
+// current element on every path where match(...) was false and nothing where it was true: len(kept) == len(from)
+// holds iff no element matched.
+func (pr *psRule) keepsExactlyNonMatching(kept, from *T) bool {
+	info, ok := pr.carried[kept.N]
+	if !ok {
+		return false
+	}
+	init := info.Init
+	for init != nil && init.Op == "carried" {
+		init = pr.carried[init.N].Init
+	}
+	if init == nil || !(init.IsEmptyList() || init.IsNil()) {
+		return false
+	}
+	grows := false
+	for _, pa := range pr.paths {
+		v, ok := pa.Carried[kept.N]
+		m := guardPol(pa, "truth", mCall("bkl.match"), nil)
+		if !ok {
+			continue
+		}
+		if v.Op == "carried" && v.N == kept.N {
+			// unchanged: fine unless this is an iteration over from where the element did not match
+			if m != 1 && pa.End == "iter" && rangesOver(pa, from) {
+				return false
+			}
+			continue
+		}
+		if !(v.Op == "append" && len(v.Args) == 2 && v.Args[0].Op == "carried" && v.Args[0].N == kept.N && v.Args[1].Op == "lit" && len(v.Args[1].Args) == 1 && v.Args[1].Args[0].Op == "elem") {
+			return false
+		}
+		el := v.Args[1].Args[0]
+		if m != -1 || len(el.Args) == 0 || el.Args[0].String() != from.String() {
+			return false
+		}
+		grows = true
+	}
+	return grows
+}
+
+// rangesOver: the path is inside an iteration of a range over x (its last positive itermore guard is on x).
+func rangesOver(pa *Path, x *T) bool {
+	for i := len(pa.Guards) - 1; i >= 0; i-- {
+		g := pa.Guards[i]
+		if g.Kind == "itermore" && !g.Neg {
+			return g.A != nil && len(g.A.Args) > 0 && g.A.Args[0].String() == x.String()
+		}
+	}
+	return false
 }
 
 // positiveCounterGuard: the path tests a counter that only grows on a match against zero: 1 = known positive,
